@@ -17,7 +17,7 @@ OLEAN = os.path.join(BUILD, "olean")
 CACHE = os.path.join(VERIF, "build", "cache")
 OUT = WORK or VERIF  # evidence/ and replay/ are written here
 _LEAN_VERSION = None
-LOCAL_ROOTS = ("PyModel", "Spec", "Contracts", "Generated", "Probe")
+LOCAL_ROOTS = ("PyModel", "Spec", "Contracts", "Generated", "Probe", "Baseline", "ContractsBase")
 
 
 def lean_version() -> str:
